@@ -275,56 +275,54 @@ impl Tzif {
         let b_search_result = db.transition_times.binary_search(seconds);
 
         let estimated_idx = match b_search_result {
-            // TODO: Double check returning early here with tests.
-            Ok(idx) => return Ok(get_local_record(db, idx).into()),
-            Err(idx) if idx == 0 => {
-                return Ok(LocalTimeRecordResult::Single(
-                    get_local_record(db, idx).into(),
-                ))
-            }
-            Err(idx) => {
-                if db.transition_times.len() <= idx {
-                    // The transition time provided is beyond the length of
-                    // the available transition time, so the time zone is
-                    // resolved with the POSIX tz string.
-                    return resolve_posix_tz_string(
-                        self.posix_tz_string()
-                            .ok_or(TemporalError::general("Could not resolve time zone."))?,
-                        seconds.0,
-                    );
-                }
-                idx
-            }
+            Ok(idx) | Err(idx) => idx,
         };
 
-        // The estimated index will be off based on the amount missing
-        // from the lack of offset.
-        //
-        // This means that we may need (idx, idx - 1) or (idx - 1, idx - 2)
-        let record = get_local_record(db, estimated_idx);
-        let record_minus_one = get_local_record(db, estimated_idx - 1);
+        if db.transition_times.len() <= estimated_idx {
+            // The transition time provided is beyond the length of
+            // the available transition time, so the time zone is
+            // resolved with the POSIX tz string.
+            return resolve_posix_tz_string(
+                self.posix_tz_string()
+                    .ok_or(TemporalError::general("Could not resolve time zone."))?,
+                seconds.0,
+            );
+        }
 
-        // Q: Potential shift bugs with odd historical transitions? This
-        //
-        // Shifts the 2 rule window for positive zones that would have returned
-        // a different idx.
-        let shift_window = usize::from((record.utoff + record_minus_one.utoff) >= Seconds(0));
+        // The local seconds differ from the UTC seconds by the offset in force, which is
+        // shorter than a day, so the position in the (UTC) transition table is off by at
+        // most a few entries. Every interval around the estimated position is tested
+        // exactly: interval `k` lasts from transition `k - 1` (the beginning of time for
+        // `k = 0`) up to transition `k` and uses the local time type set by transition
+        // `k - 1` (type 0 before the first transition).
+        let first = estimated_idx.saturating_sub(2);
+        let last = (estimated_idx + 2).min(db.transition_times.len());
+        let mut found: [Option<LocalTimeTypeRecord>; 2] = [None, None];
+        for interval in first..=last {
+            let record = if interval == 0 {
+                db.local_time_type_records[0]
+            } else {
+                get_local_record(db, interval - 1)
+            };
+            let utc_seconds = *seconds - record.utoff;
+            let after_start = interval == 0 || db.transition_times[interval - 1] <= utc_seconds;
+            let before_end = db
+                .transition_times
+                .get(interval)
+                .is_none_or(|end| utc_seconds < *end);
+            if after_start && before_end {
+                if found[0].is_none() {
+                    found[0] = Some(record);
+                } else {
+                    found[1] = Some(record);
+                }
+            }
+        }
 
-        let new_idx = estimated_idx - shift_window;
-
-        let current_transition = db.transition_times[new_idx];
-        let current_diff = *seconds - current_transition;
-
-        let initial_record = get_local_record(db, new_idx - 1);
-        let next_record = get_local_record(db, new_idx);
-
-        // Adjust for offset inversion from northern/southern hemisphere.
-        let offset_range = offset_range(initial_record.utoff.0, next_record.utoff.0);
-        match offset_range.contains(&current_diff.0) {
-            true if next_record.utoff > initial_record.utoff => Ok(LocalTimeRecordResult::Empty),
-            true => Ok((next_record, initial_record).into()),
-            false if current_diff < initial_record.utoff => Ok(initial_record.into()),
-            false => Ok(next_record.into()),
+        match found {
+            [None, _] => Ok(LocalTimeRecordResult::Empty),
+            [Some(record), None] => Ok(record.into()),
+            [Some(earlier), Some(later)] => Ok((later, earlier).into()),
         }
     }
 }
